@@ -39,7 +39,7 @@ ASSUMPTIONS = ['randomised routines are called with an explicit seed; samplers w
 REACH_EXPECTED = ['perturb_sibling_fresh_process', 'perturb_poison', 'perturb_threads', 'perturb_history', 'perturb_sibling', 'perturb_rng', 'perturb_reuse_buffers', 'perturb_repeat',
                   'masked_sites_executed_under_poison']
 EXCLUDED = {'msm.synthetic_data.synthetic_trajectory': 'sampler without seed argument',
-            'msm.bootstrap.*': 'sampler without seed argument (and real multiprocessing)',
+            'msm.bootstrap.MSMs': 'thin wrapper over bootstrap (which is covered, seeded, on the simulated pool)',
             'cluster.KMedoids (estimator, cold start)': 'draws from OS entropy by design',
             'apps.*, geometry.* except libdist/rotamer, cards except disorder.transitions': 'file/trajectory driven front ends'}
 
@@ -81,10 +81,12 @@ def g_T(t, reversible=False):
     return C / C.sum(axis=1, keepdims=True)
 
 
-def as_container(t, M, kinds=('dense', 'dense', 'csr', 'csc', 'coo', 'lil')):
+def as_container(t, M, kinds=('dense', 'dense', 'dense_f', 'csr', 'csc', 'coo', 'lil')):
     k = t.choice(kinds)
     if k == 'dense':
         return M
+    if k == 'dense_f':
+        return np.asfortranarray(M)          # column-major, as a transposed view or a LAPACK result would be
     return getattr(sp, k + '_matrix')(M)
 
 
@@ -307,7 +309,7 @@ def catalogue():
     add('transition_matrices.assigns_to_counts', gen)
 
     def gen(t):
-        T = as_container(t, g_T(t), ('dense', 'dense', 'csr'))
+        T = as_container(t, g_T(t), ('dense', 'dense', 'dense_f', 'csr'))
         n = T.shape[0]
         return tm.eigenspectrum, [T, None if t.flag() else t.irange(2, n) if n >= 2 else None, t.flag()], set()
     add('transition_matrices.eigenspectrum', gen)
@@ -347,13 +349,37 @@ def catalogue():
         from enspara.msm import MSM
         A, ns = g_assigns(t)
 
-        def fit(A, lag, meth, trim, mx):
+        A0 = g_assigns(t)[0] if t.flag(1, 2) else None
+
+        def one(A, lag, meth, trim, mx, first):
             m = MSM(lag_time=lag, method=meth, trim=trim, max_n_states=mx)
+            if first is not None:
+                # the object was fitted before, on other data and with the other trimming choice: the later fit decides
+                m.trim = not trim
+                m.fit(first)
+                m.trim = trim
             m.fit(A)
             mp = sorted((int(a), int(b)) for a, b in m.mapping_.to_original.items())
-            return [m.tcounts_, m.tprobs_, m.eq_probs_, np.array(mp)]
+            return [np.asarray(m.tcounts_.todense() if sp.issparse(m.tcounts_) else m.tcounts_),
+                    np.asarray(m.tprobs_.todense() if sp.issparse(m.tprobs_) else m.tprobs_), np.asarray(m.eq_probs_), np.array(mp)]
+
+        def fit(A, lag, meth, trim, mx, first=A0):
+            fresh = one(A, lag, meth, trim, mx, None)
+            if first is not None:
+                again = one(A, lag, meth, trim, mx, first)
+                for nm_, x, y in zip(('tcounts_', 'tprobs_', 'eq_probs_', 'mapping_'), fresh, again):
+                    if x.shape != y.shape or not np.array_equal(x, y, equal_nan=True):
+                        raise SimViolation('result_depends_on_context', 'MSM.fit on an object that was fitted before (other data, other trim '
+                                           'setting) gives another %s than on a new object: %s vs %s' % (nm_, y.tolist(), x.tolist()))
+            return fresh
         return fit, [A, t.irange(1, 2), t.choice(('normalize', 'transpose', builders.normalize)), t.flag(1, 3), None if t.flag() else ns], set()
     add('msm.MSM.fit', gen)
+
+    def gen(t):
+        rs = np.random.RandomState(t.draw(2 ** 31 - 1))
+        data = rs.randint(0, 50, size=(t.irange(2, 12), t.irange(1, 3))).astype(np.int32)
+        return seeded_bootstrap, [data, t.irange(1, 6), t.draw(1000)], set()
+    add('msm.bootstrap.bootstrap (seeded, simulated pool)', gen)
 
     def gen(t):
         T = as_container(t, g_T(t), ('dense', 'csr'))
@@ -400,7 +426,7 @@ def catalogue():
     def gen(t):
         F, src, snk = g_flux(t)
         return (lambda a, b, F, rp, npth, fc: tpt.paths(a, b, F, remove_path=rp, num_paths=npth, flux_cutoff=fc)), \
-            [src, snk, F, t.choice(('subtract', 'bottleneck')), t.choice((np.inf, 1, 3)), t.choice((1 - 1e-10, 0.5))], set()
+            [src, snk, F, t.choice(('subtract', 'bottleneck', _remove_bottleneck_in_place)), t.choice((np.inf, 1, 3)), t.choice((1 - 1e-10, 0.5))], set()
     add('tpt.paths', gen)
 
     # clustering helpers and clusterers ----------------------------------------------------
@@ -655,6 +681,39 @@ def run_once(fn, args, poison, pseed, T, dec, scribble=()):
 
 _CAT = None
 _SITES = None
+_CUR = {'ctx': None}
+
+
+def _remove_bottleneck_in_place(net_flux, path):
+    """a user-supplied `remove_path` scheme for tpt.paths: edits the matrix it is handed and returns it (the docstring asks
+    only for 'a function that takes the net flux and the path and returns the new net flux matrix')"""
+    path = np.asarray(path)
+    edges = net_flux[path[:-1], path[1:]]
+    k = int(np.argmin(edges))
+    net_flux[path[k], path[k + 1]] = 0.0
+    return net_flux
+
+
+def _boot_stat(sample, scale=1):
+    """the statistic handed to msm.bootstrap (module level: it crosses to the workers by pickle)"""
+    return (np.asarray(sample, dtype=np.int64) * scale).sum(axis=0)
+
+
+def seeded_bootstrap(data, n_trials, seed):
+    """msm.bootstrap.bootstrap with numpy's global generator seeded first, on a simulated pool whose worker count, dispatch
+    and completion order are tape decisions of the run (context, not arguments)"""
+    from enspara.msm import bootstrap as B
+    from ..engines import simpool
+    ctx = _CUR['ctx']
+    np.random.seed(seed)
+    sim = simpool.Sim(ctx, [B])
+    old = B.mp
+    B.mp = simpool.SimMP(sim)
+    try:
+        return B.bootstrap(_boot_stat, data, n_trials, n_procs=ctx.tape.irange(1, 4, 'pool'), scale=2)
+    finally:
+        B.mp = old
+        B.__dict__.pop('bootstrap_data', None)
 
 
 def setup():
@@ -667,6 +726,7 @@ def setup():
 
 def scenario(ctx):
     t = ctx.tape
+    _CUR['ctx'] = ctx
     cat = _CAT
     k = t.draw(len(cat))
     name, gen = cat[k]
